@@ -23,6 +23,7 @@ fn main() {
         "join" => sv::eng_join::run(&mut rep),
         "changeset" => sv::eng_changeset::run(&mut rep),
         "panicdrop" => sv::eng_panicdrop::run(&mut rep),
+        "conc" => sv::eng_conc::run(&mut rep),
         "parjoin" => sv::eng_join::par::run(&mut rep),
         "saveload" => sv::eng_saveload::run(&mut rep),
         "dispatch" => sv::eng_dispatch::run(&mut rep),
